@@ -60,7 +60,7 @@ def _manager(spec, nm):
     return b, refs
 
 
-def _check(r, u, t, js, forall, n, den, nm):
+def _check(r, u, t, js, forall, n, den, nm, canon=None):
     want = tt.forall(t, n, js) if forall else tt.exists(t, n, js)
     got = den(r)
     require(got == want, 'quantify.wrong_result',
@@ -69,6 +69,9 @@ def _check(r, u, t, js, forall, n, den, nm):
     if not (sup & set(js)):
         require(r == u, 'quantify.not_identity_outside_support',
                 dict(r=r, u=u))
+    if canon is not None:
+        require(r == canon[want], 'result.not_canonical',
+                dict(r=r, want=canon[want]))
     return bool(sup & set(js)) and want not in (0, tt.full(n))
 
 
@@ -132,11 +135,14 @@ def run_forms(spec, out):
                     def body():
                         nonlocal nt
                         r = fn(t, js, fa)
-                        if _check(r, refs[t], t, js, fa, n, den, nm):
+                        if _check(r, refs[t], t, js, fa, n, den, nm, refs):
                             nt += 1
                     out.guard(case, body)
         out.count((F + 1) * (1 << n) * 2, nt)
         b.collect_garbage()
+        from .. import inv
+        out.guard(dict(base, form=fname, step='structure'),
+                  lambda: inv.check_structure(b))
         den = Den(b, nm)
         for t, u in enumerate(refs):
             if den(u) != t:
@@ -197,7 +203,7 @@ def run_n4(spec, out):
                     r = b.quantify(u, ns, forall=fa)
                     want = (tt.forall(t, n, js) if fa
                             else tt.exists(t, n, js))
-                    if den(r) != want or (
+                    if den(r) != want or r != refs[want] or (
                             not (sup & set(js)) and r != u):
                         out.fail('quantify.wrong_result',
                                  dict(base, kind='n4case', t=t, js=js,
@@ -212,6 +218,8 @@ def run_n4(spec, out):
         if t % 512 < spec['parts']:
             b.collect_garbage()
     out.count(cnt, nt)
+    from .. import inv
+    out.guard(dict(base, step='structure'), lambda: inv.check_structure(b))
     den = Den(b, nm)
     bad = [t for t, u in enumerate(refs) if den(u) != t]
     if bad:
